@@ -546,6 +546,9 @@ def run_summary_check(ctx, prop, n):
         for key, detail in out["problems"]:
             ctx.violation(key, detail + " | trace seed %d (%s, %d chains, %d entries)" % (out["seed"], out["kind"], out["chains"], out["entries"]),
                           {"seed": out["seed"], "prop": prop, "key": key})
+    n_skipped = sum(1 for o in res if o["skipped"])
+    if n_skipped > 0.25 * len(res):
+        raise runner.HarnessError("%d of %d base runs raised before any trace existed; the summary commands cannot be judged (see C19)" % (n_skipped, len(res)))
     ctx.cov["evaluations"] = len(res)
     ctx.cov["distinct_nontrivial"] = len(sig)
     ctx.cov["summary_commands_run"] = cmds
